@@ -1,6 +1,7 @@
 import Driver.Files
 import Driver.EngineCmd
 import Driver.FmtCmd
+import Driver.NcchCmd
 open Pyctr
 
 /-- `(fileops NODE (OP …))` → one rendered output per op, then the bottom buffers -/
@@ -29,6 +30,7 @@ def handle (line : String) : String :=
     | "fileops" => handleFileOps args
     | "aesenc" | "aesdec" | "sha256" | "sha1" => handlePrim cmd args
     | "engine" => handleEngine args
+    | "ncch-open" | "ncch-ops" => handleNcch cmd args
     | "romfs-parse" | "romfs-lookup" | "romfs-rep" => handleRomfs cmd args
     | "tmd-load" | "tmd-roundtrip" | "tmd-ser" => handleTmd cmd args
     | "exefs-parse" | "exefs-build" | "exefs-norm" | "exefs-lookup" => handleExefs cmd args
